@@ -377,12 +377,21 @@ def rng_paren(p, res):
         else:
             res.bad(F('RNG-PAREN', scan, n, src_of(n), '%s delimits even inside a parenthesised expression (state.expression is not consulted)' % ch,
                       failing_input="css_matcher.match('a{b:url(x;y)}', 9)"))
-    # depth bookkeeping
-    s = src_of(loops[0])
-    if 'state.expression += 1' in s and 'state.expression -= 1' in s:
+    # depth bookkeeping: somewhere in the scanner module the depth field is stepped up and down by one
+    ups = downs = 0
+    for g in p.funcs.values():
+        if g.module is not scan.module:
+            continue
+        for n in g.body_nodes():
+            if isinstance(n, ast.AugAssign) and isinstance(n.target, ast.Attribute) and n.target.attr == 'expression' and p.try_const(g, n.value) == 1:
+                ups += isinstance(n.op, ast.Add)
+                downs += isinstance(n.op, ast.Sub)
+    if ups and downs:
         res.ok('( increments and ) decrements state.expression')
+    elif ups or downs:
+        res.bad(F('RNG-PAREN', scan, loops[0], 'state.expression bookkeeping', 'the parenthesis depth is only ever %s: ( and ) must step it up and down' % ('incremented' if ups else 'decremented')))
     else:
-        res.bad(F('RNG-PAREN', scan, loops[0], 'state.expression bookkeeping', 'parenthesis depth must be counted'))
+        res.undecided('css scan: state.expression bookkeeping', 'no += 1 / -= 1 on the depth field found in the scanner module')
     res.require_floor(5)
 
 
